@@ -15,7 +15,7 @@ AllShapes == PolyShapes \cup DiscShapes
 \* cells: rectangular, 3-4-5 sheared, thin
 BQuick == {<<0, 20>>, <<0, 28>>, <<0, 14>>, <<12, 16>>, <<9, 12>>}
 
-ModelOK == C15Model /\ Symmetric
+ModelOK == C15Model /\ Symmetric /\ SitesLemma
 \* heavier model-level lemmas, checked in the thorough configuration
 LemmasOK == ShellBoundOK /\ C02Model
 
@@ -29,6 +29,7 @@ Emit == LET vs == Verdicts(KN, KM) IN
            verdict |-> VerdictOf(vs), minshell |-> MinShellOf(vs), near |-> Cardinality(vs),
            kn |-> KN, km |-> KM, n |-> N,
            num |-> HardScore[1], den |-> HardScore[2], unit |-> HardScore[3],
+           multi |-> IF Redescribable THEN 1 ELSE 0,
            pl |-> Placements ])>>)
 
 \* C03: wells of range 2.5 and 4 length units (world units: D*U per unit length)
@@ -64,5 +65,6 @@ EmitPlacements == PrintT(<<"EMIT", ToJson([
            U |-> U, D |-> D, ax |-> ax, bx |-> bx, by |-> by, sx |-> sx, sy |-> sy,
            c |-> C, s |-> S, h |-> Hh, verdict |-> "na", minshell |-> 99, near |-> 0,
            kn |-> 0, km |-> 0, n |-> N, num |-> 0, den |-> 1, unit |-> "na",
+           multi |-> IF Redescribable THEN 1 ELSE 0,
            pl |-> Placements ])>>)
 =============================================================================
